@@ -1222,7 +1222,7 @@ class SyncObj(object):
                             currData = entry[pos:pos + batchSizeBytes]
                             if pos == 0:
                                 transmission = 'start'
-                            elif pos + batchSizeBytes >= len(entries[0][0]):
+                            elif pos + batchSizeBytes >= len(entry):
                                 transmission = 'finish'
                             else:
                                 transmission = 'process'
